@@ -80,11 +80,11 @@ func (s *state) applyBlock() bool {
 			changed = fresh.content() != s.M.content()
 		}
 		if changed {
-			want = newMSet(list)
-			if !(&mSet{vals: want.vals}).safe(1) {
+			if !(&mSet{vals: list}).safe(1) {
 				c.Probe("apply-skipped-saturating")
 				return true
 			}
+			want = newMSet(list)
 		} else {
 			want = s.M.copy()
 			want.step()
